@@ -62,14 +62,25 @@ pub const MALFORMED: &[&str] = &[
     "position moves",
 ];
 
+/// Unknown lines whose first word begins with (or extends) a command word: a dispatcher that looks
+/// at a prefix of the line, not at its first word, takes them for the command. Indexed after
+/// MALFORMED.
+pub const NEAR: &[&str] = &["goto depth 1", "gone", "go2 depth 1", "positions startpos moves e2e4", "positionstartpos", "ucii", "isreadyx", "ucinewgames", "quitx", "stopgo"];
+
+/// Searches that finish long before their time budget is used (and one that uses it up): what a
+/// search leaves running when it returns early must not keep the process alive after its input
+/// ends. Indexed after NEAR.
+pub const TIMED: &[&str] = &["go depth 1 movetime 100000", "go depth 2 wtime 600000 btime 600000 winc 0 binc 0", "go movetime 25"];
+
 pub fn sym(i: usize) -> &'static str {
-    if i < ALPHABET.len() {
-        ALPHABET[i]
-    } else if i < ALPHABET.len() + UNKNOWN.len() {
-        UNKNOWN[i - ALPHABET.len()]
-    } else {
-        MALFORMED[i - ALPHABET.len() - UNKNOWN.len()]
+    let mut i = i;
+    for list in [ALPHABET, UNKNOWN, MALFORMED, NEAR, TIMED] {
+        if i < list.len() {
+            return list[i];
+        }
+        i -= list.len();
     }
+    panic!("symbol index out of range")
 }
 
 static LONG: std::sync::OnceLock<String> = std::sync::OnceLock::new();
@@ -281,7 +292,21 @@ pub fn run(tier: &str, seed: u64, out: &str, engine_hooks: &str, engine_plain: &
             mal.push(i);
         }
     }
+    let base = ALPHABET.len() + UNKNOWN.len() + MALFORMED.len();
+    let mut near: Vec<usize> = (base..base + NEAR.len()).collect();
+    let mut timed: Vec<usize> = (base + NEAR.len()..base + NEAR.len() + TIMED.len()).collect();
+    for (i, a) in ALPHABET.iter().enumerate() {
+        if matches!(*a, "uci" | "isready" | "go depth 1" | "quit") {
+            near.push(i);
+        }
+        if matches!(*a, "uci" | "isready" | "position startpos moves e2e4" | "ucinewgame" | "quit") {
+            timed.push(i);
+        }
+    }
     let mut plan = plan;
+    plan.push((engine_plain, "hooks off", &near, if thorough { 4 } else { 3 }, vec![true]));
+    plan.push((engine_plain, "hooks off", &near, 2, vec![false]));
+    plan.push((engine_plain, "hooks off", &timed, if thorough { 4 } else { 3 }, vec![true, false]));
     plan.push((engine_plain, "hooks off", &ext, if thorough { 4 } else { 3 }, vec![true]));
     plan.push((engine_plain, "hooks off", &ext, 2, vec![false]));
     plan.push((engine_plain, "hooks off", &mal, if thorough { 4 } else { 3 }, vec![true]));
@@ -332,6 +357,8 @@ pub fn run(tier: &str, seed: u64, out: &str, engine_hooks: &str, engine_plain: &
         .set("alphabet", ALPHABET.iter().map(|a| a.replace('\r', "\\r")).collect::<Vec<_>>())
         .set("unknown_lines", UNKNOWN.iter().map(|a| a.to_string()).collect::<Vec<_>>())
         .set("incomplete_or_scrambled_commands", MALFORMED.iter().map(|a| a.to_string()).collect::<Vec<_>>())
+        .set("unknown_lines_that_begin_like_a_command", NEAR.iter().map(|a| a.to_string()).collect::<Vec<_>>())
+        .set("searches_that_finish_before_their_budget", TIMED.iter().map(|a| a.to_string()).collect::<Vec<_>>())
         .set("runs_containing_quit", with_quit.load(Ordering::Relaxed))
         .set("runs_containing_go", with_go.load(Ordering::Relaxed))
         .set("termination_horizon_s", HORIZON_S)
